@@ -26,6 +26,11 @@ type c20Case struct {
 	Tail      int    `json:"tail"`         // requests published after Stop returned
 	OwnConn   bool   `json:"own_conn"`     // publisher uses the server's connection
 	Proto     string `json:"proto"`
+	// PadKB: every request carries a header of that many KiB (large but legal messages pile up
+	// in the subscription while the work queue is full)
+	PadKB int `json:"pad_kb,omitempty"`
+	// Poison: that many messages of fewer than 4 bytes (with a reply subject) precede the burst
+	Poison int `json:"poison,omitempty"`
 }
 
 func genC20(t *rapid.T) c20Case {
@@ -40,6 +45,12 @@ func genC20(t *rapid.T) c20Case {
 	c.Tail = rapid.IntRange(0, 4).Draw(t, "tail")
 	c.OwnConn = rapid.IntRange(0, 3).Draw(t, "own") == 0
 	c.Proto = rapid.SampledFrom([]string{"binary", "compact", "json"}).Draw(t, "proto")
+	if rapid.IntRange(0, 2).Draw(t, "poison?") == 0 {
+		c.Poison = rapid.IntRange(1, 6).Draw(t, "poison")
+	}
+	if rapid.IntRange(0, 3).Draw(t, "pad?") == 0 {
+		c.PadKB = rapid.SampledFrom([]int{64, 200, 500}).Draw(t, "padkb")
+	}
 	return c
 }
 
@@ -56,6 +67,12 @@ func classifyC20(c c20Case) ev.Class {
 	}
 	if c.QueueLen == 0 {
 		labels = append(labels, "unbuffered-queue")
+	}
+	if c.Poison > 0 {
+		labels = append(labels, "malformed-messages-before-the-burst")
+	}
+	if c.PadKB > 0 && len(c.Durations)*c.PadKB > 1024*(c.QueueLen+1) {
+		labels = append(labels, "pending-bytes>queue-length-MiB")
 	}
 	if c.Tail > 0 {
 		labels = append(labels, "tail-after-stop")
@@ -136,9 +153,16 @@ func execC20Inner(c c20Case) *ev.Failure {
 	publish := func(kind string, i, dur int) {
 		v := name(kind, i, dur)
 		opid := fmt.Sprint(700000 + i)
-		frame := refFrame(frameContent([]KV{kv("_opid", opid), kv("_cid", "c"), kv("_timeout", "5000")},
+		hdrs := []KV{kv("_opid", opid), kv("_cid", "c"), kv("_timeout", "5000")}
+		if c.PadKB > 0 {
+			hdrs = append(hdrs, kv("pad", strings.Repeat("p", c.PadKB*1024)))
+		}
+		frame := refFrame(frameContent(hdrs,
 			thriftMessage(c.Proto, "echo", thrift.CALL, &strStruct{Name: "echo_args", ID: 1, V: &v})))
 		pconn.PublishRequest(subj, inbox+"."+kind+strconv.Itoa(i), frame)
+	}
+	for i := 0; i < c.Poison; i++ {
+		pconn.PublishRequest(subj, inbox+".poison"+strconv.Itoa(i), []byte{0, 0, 1}[:i%4%3+0])
 	}
 	for i := 0; i < c.StopAfter; i++ {
 		publish("pre", i, c.Durations[i])
